@@ -172,6 +172,8 @@ def f_wop(a):
         fn, ident, posts = UNARY[name]
         out = fn(m)
         e["fn"], e["posts"] = ident, posts
+        if name == "determinize" and srmodel(a["sr"]) == "Rat":
+            e["pushed"] = wfsa_proj(m.epsremove.push)       # the machine the subset construction runs on (Determinize.tla)
     else:
         m2 = build_wfsa(a["B"], a["sr"], a.get("style2", "int"), a.get("cls", "base"))
         out = BINARY[name](m, m2)
